@@ -86,7 +86,8 @@ def stepJ (s : St D) (j : Json) : St D × Json :=
     let n := natF j "n"
     let g' := setNode s.g n (fun nd => { nd with task := none })
     let explicit := (arrF j "explicit").map nat
-    let all := (collectDeps g' n ++ explicit).eraseDups
+    let loaded := (arrF j "loaded").map nat      -- nodes obtained by deserialisation (`__xpm__.loaded`)
+    let all := (collectDeps g' (fun k => loaded.contains k) n ++ explicit).eraseDups
     (s, Json.mkObj [("deps", Json.arr ((all.toArray.qsort (· < ·)).map (fun (k : Nat) => (k : Json))))])
   | "sealed" => (s, Json.mkObj [("sealed", Json.arr ((s.g.nodes.map (fun nd => (nd.sealed : Json))).toArray))])
   | op => (s, Json.mkObj [("error", Json.str s!"bad-op {op}")])
